@@ -664,3 +664,7 @@ V("c12-twin-take-nested-to-and", "C12", "-", "dask_array/slicing/_basic.py",
 V("c28-twin-nan-guard-else-form", "C28", "-", "dask_array/slicing/_basic.py",
   "    if np.isnan(x.chunks[axis]).any():\n        raise NotImplementedError(\"Slicing an array with unknown chunks with a dask.array of ints is not supported\")",
   "    if not np.isnan(x.chunks[axis]).any():\n        pass\n    else:\n        raise NotImplementedError(\"Slicing an array with unknown chunks with a dask.array of ints is not supported\")", twin=True)
+
+V("c10-callable-object-mutates-argument", "C10", "R10.1", "dask_array/_frisky/fused_blockwise.py",
+  "    def __call__(self, *dependencies):\n        return _execute_subgraph(self.subgraph, self.outkey, self.inkeys, *dependencies)",
+  "    def __call__(self, *dependencies):\n        for d in dependencies:\n            d[...] = 0\n        return _execute_subgraph(self.subgraph, self.outkey, self.inkeys, *dependencies)", expect="_FusedSubgraph.__call__")
